@@ -12,7 +12,7 @@ THEOREMS = ["advertises_everything_held", "advert_reaches_every_candidate", "act
             "fetches_only_unheld", "immutable_replicates_identically", "fetched_record_is_holders_or_merge",
             "mutable_converges_if_fetched", "scratchpad_highest_counter_wins", "sync_replicates_missing",
             "periodic_replication_converges_outside_known", "periodic_replication_converges_refuted",
-            "delivery_order_irrelevant_for_missing"]
+            "delivery_order_irrelevant_for_missing", "on_replicate_matches_fetcher_model"]
 RULE = ("scenarios over 2-3 real nodes: (a) every node seeded with records of all kinds through the real "
         "replication-path validation, mutual or one-directional routing-table entries, interval replication "
         "at every node, all messages delivered in a seeded random order, several rounds; (b) divergent "
@@ -24,7 +24,7 @@ RULE = ("scenarios over 2-3 real nodes: (a) every node seeded with records of al
         "ended equal)")
 ASSUMPTIONS = [
     "closest-peer and replicate-candidate lists are taken from the real routing table as data (their computation is C11)",
-    "the fetcher is modelled only within its parallel-fetch cap and without timeouts (full transcription and theorems: C08); cases keep <= 8 keys",
+    "the fetcher is modelled only inside the envelope of the bridge theorem on_replicate_matches_fetcher_model (idle queue, cap not reached, no advertised unheld entry already in flight next to another unheld one) and without timeouts; the agreement stops comparing a run at the step that leaves the envelope (the oracle still judges it); full transcription and theorems: C08",
     "record validity (signatures, content address) is a flag computed by the generator from how the record was built (C04/C06/C07 verify the validators)",
     "libp2p transport is replaced by the harness; message loss/reordering is explicit in the case"]
 
@@ -67,7 +67,7 @@ def canon(desc, names):
     if t == "reg":
         return ("reg", names.bid(desc["base"]), frozenset(o.get("id", -1) for o in desc["ops"]))
     if t == "txs":
-        return ("txs", frozenset(x.get("content", -1) for x in desc["list"]))
+        return ("txs", frozenset(x.get("owner", 0) * 1000 + x.get("content", -1) for x in desc["list"]))
     return ("raw", json.dumps(desc, sort_keys=True))
 
 
@@ -94,7 +94,7 @@ def body_canon(body, names):
         base = {"owner": body["owner"], "meta": body["meta"], "perm": body["perm"], "osig": body["osig"]}
         return ("reg", names.bid(base), frozenset(o["id"] for o in body["ops"])), True
     if t == "txs":
-        return ("txs", frozenset(x["content"] for x in body["list"] if tx_valid(x))), True
+        return ("txs", frozenset(x["owner"] * 1000 + x["content"] for x in body["list"] if tx_valid(x))), True
     return ("raw", "?"), False
 
 
